@@ -9,6 +9,9 @@ The tie of the descriptor and of the model to the real code is the `togo` channe
 import ZygoVerif.Model.ToGo
 import ZygoVerif.Spec.RecordGo
 import ZygoVerif.Proofs.ToGoCache
+import ZygoVerif.Proofs.ToGoPaths
+import ZygoVerif.Proofs.ToGoLookup
+import ZygoVerif.Proofs.ToGoHist
 import ZygoVerif.Model.LegacyToGo
 namespace ZygoVerif.C10
 open ZygoVerif.ToGo ZygoVerif.SpecToGo
@@ -455,5 +458,167 @@ theorem shared_through_iface_counterexample :
     LegacyToGo.assignLegacy ⟨[], [("I", ["S"])]⟩ (.ptr (some 0)) (.ptr "S") (.iface "I") none = .ok (.iface (some (.ptr (some 0)))) ∧
     assign ⟨[], [("I", ["S"])]⟩ (.ptr (some 0)) (.ptr "S") (.ptr "S") = .ok (.ptr (some 0)) := by
   refine ⟨?_, ?_, ?_⟩ <;> simp [LegacyToGo.assignLegacy, assign, World.implements]
+
+/-! ### embedding depth: the field table and its `EmbedPath`s (proofs: `Proofs/ToGoPaths`, `Proofs/ToGoLookup`)
+
+The model keeps `fillJsonMap`'s paths (`Entry.path`), nothing is abstracted away: `fillFields` and
+`backStep` reach every field through `getPath/setPath` along the recorded path. The three theorems
+hold for EVERY depth budget `n`, i.e. for embedding of any depth. -/
+
+/-- every entry's path leads, field number by field number through struct-typed anonymous fields,
+to a declared field with exactly the entry's key, type and embedded flag -/
+theorem embed_path_leads_to_its_field (w : World) (n : Nat) (fs : List Field) (e : Entry)
+    (he : e ∈ fieldTable w n fs 0 []) :
+    ∃ f, e.path ≠ [] ∧ ToGoPaths.fieldAt w fs e.path = some f ∧ ToGoPaths.Describes e f := by
+  obtain ⟨q, f, hq, hp, hat, hd⟩ := ToGoPaths.fieldTable_sound w n fs [] e he
+  simp only [List.nil_append] at hp
+  exact ⟨f, by rw [hp]; exact hq, by rw [hp]; exact hat, hd⟩
+
+/-- no two entries share a path: every declared field, at every depth, has a path of its own
+(what the append-aliasing of seed C10-m1 destroys from depth 3 on) -/
+theorem embed_paths_unique (w : World) (n : Nat) (fs : List Field) :
+    ((fieldTable w n fs 0 []).map (·.path)).Nodup :=
+  (ToGoPaths.fieldTable_paths_nodup w n fs []).1
+
+/-- model = spec for the lookup of a key, at every depth: "the last entry of the flattened table
+with this key" is "search the declarations from the last to the first, inside an embedded struct
+before the embedded field itself" — same path, same type -/
+theorem lookup_is_search_through_embedded (w : World) (k : String) (n : Nat) (fs : List Field) :
+    (lookupKey (fieldTable w n fs 0 []) k).map ToGoLookup.proj = findExact w (n + 1) fs k := by
+  have h := ToGoLookup.lookupKey_eq_findExact w k n fs []
+  simp only [List.nil_append] at h
+  have hid : (fun r : List Nat × Ty => (r.1, r.2)) = id := rfl
+  rw [hid, Option.map_id, id] at h
+  exact h
+
+/-- a world with four levels of embedding, several fields per level, one tag shadowed at the top -/
+def wDeep : World :=
+  ⟨[⟨"D0", "d0", [⟨"Id", "id", false, .int .i64⟩, ⟨"D1", "", true, .struct "D1"⟩, ⟨"Hi0", "hi", false, .str⟩]⟩,
+    ⟨"D1", "", [⟨"D2", "", true, .struct "D2"⟩, ⟨"C1", "c1", false, .int .i16⟩]⟩,
+    ⟨"D2", "d2", [⟨"A2", "a2", false, .int .i64⟩, ⟨"D3", "", true, .struct "D3"⟩]⟩,
+    ⟨"D3", "", [⟨"D4", "", true, .struct "D4"⟩, ⟨"U3", "u3", false, .str⟩]⟩,
+    ⟨"D4", "d4", [⟨"Lo", "lo", false, .int .i64⟩, ⟨"Hi", "hi", false, .int .i64⟩, ⟨"Nm", "", false, .str⟩]⟩], []⟩
+
+def fsDeep : List Field := [⟨"Id", "id", false, .int .i64⟩, ⟨"D1", "", true, .struct "D1"⟩, ⟨"Hi0", "hi", false, .str⟩]
+
+set_option maxRecDepth 20000 in
+/-- depth 4: `lo` and the capitalised `nm` are found along five field numbers; `hi` names the
+top-level field declared later, not the depth-4 one -/
+example :
+    (resolve (fieldTable wDeep 8 fsDeep 0 []) [108, 111]).map (·.path) = some [1, 0, 1, 0, 0] ∧
+    (resolve (fieldTable wDeep 8 fsDeep 0 []) [110, 109]).map (·.path) = some [1, 0, 1, 0, 2] ∧
+    (resolve (fieldTable wDeep 8 fsDeep 0 []) [104, 105]).map (·.path) = some [2] ∧
+    (fieldTable wDeep 8 fsDeep 0 []).length = 12 := by
+  decide +kernel
+
+/-! ### histories on shared records (model: `Model/ToGoHist`, proofs: `Proofs/ToGoHist`) -/
+
+open ZygoVerif.ToGoHist ZygoVerif.ToGoHistProofs
+
+/-- is this step a conversion (explicit, or implicit through a method call)? -/
+def Step.converts : Step → Bool
+  | .togo _ => true | .echo _ => true | .touch _ => true | .self _ => true | _ => false
+
+/-- FULL STRENGTH (`togo_reflects_current_record`): in every state — whatever was converted before,
+whatever structs are attached — a conversion step answers exactly as it would if the records had
+their present fields and nothing had ever been converted. REFUTED for the code as it is
+(`togo_reflects_current_record_counterexample`, the keyed known finding): `(togo r)` on a record
+with a struct attached fills that struct again and a by-value struct field keeps old content. -/
+def TogoReflectsCurrentRecord (w : World) (fuel : Nat) : Prop :=
+  ∀ (h : HSt) (s : Step), Step.converts s = true → (step w fuel h s).1 = (step w fuel (pristine h.store) s).1
+
+/-- the proved part: every conversion of a record passed as an ARGUMENT (identity method or
+mutating method), and `(togo r)` / a receiver when `r` has no struct attached. Missing for the full
+statement: `(togo r)` and receiver calls on a record WITH an attached struct — see
+`refill_writes_current_values` for what holds there (the current pairs are all written) and the
+counterexample for what does not (content the current pairs do not name is kept). -/
+theorem togo_reflects_current_record_partial (w : World) (fuel : Nat) (h : HSt) (s : Step)
+    (hs : (match s with
+      | .echo _ => True | .touch _ => True
+      | .togo r => h.shadowOf r = none | .self r => h.shadowOf r = none
+      | _ => False)) :
+    (step w fuel h s).1 = (step w fuel (pristine h.store) s).1 := by
+  cases s with
+  | echo r => exact stepArg_ans_of_store w fuel h (pristine h.store) rfl r false
+  | touch r => exact stepArg_ans_of_store w fuel h (pristine h.store) rfl r true
+  | togo r => exact stepTogo_fresh_ans_of_store w fuel h (pristine h.store) rfl r hs rfl
+  | self r => exact stepSelf_fresh_ans_of_store w fuel h (pristine h.store) rfl r hs rfl
+  | hset r k v => exact absurd hs id
+  | read r => exact absurd hs id
+
+/-- for ALL histories: after any steps from any state, passing `r` to a Go method answers exactly
+like the first conversion of a never-converted record with the fields `r` has now — no stale cache -/
+theorem arg_reflects_current_record (w : World) (fuel : Nat) (h0 : HSt) (pre : List Step) (r : Nat) (m : Bool) :
+    (stepArg w fuel (run w fuel h0 pre).2 r m).1 =
+      (stepArg w fuel (pristine ((executed w fuel h0 pre).foldl storeStep h0.store)) r m).1 :=
+  ToGoHistProofs.arg_reflects_current_record w fuel h0 pre r m
+
+/-- for ALL histories: the script's records are what the executed `hset`s made them; conversions
+and method calls (and whatever they attach or mutate on the Go side) never change a record -/
+theorem conversions_leave_records_alone (w : World) (fuel : Nat) (steps : List Step) (h : HSt) :
+    (run w fuel h steps).2.store = (executed w fuel h steps).foldl storeStep h.store :=
+  run_store w fuel steps h
+
+/-- `(togo r)` with a struct attached: the field loop runs over the pairs the record has NOW -/
+theorem refill_writes_current_values (w : World) (fuel : Nat) (h h1 : HSt) (o : Nat) (id : Nat) (tn : String)
+    (kvs : List (Key × Sx)) (hr : convertRefill w fuel h o (.hash id tn kvs) = .ok h1) :
+    ∃ d cur sv st1, w.lookupReg tn = some d ∧ h.heap[o]? = some cur ∧
+      fillFields (conv w fuel) (fieldTable w 8 d.fields 0 []) ⟨h.heap, []⟩ cur kvs = .ok (sv, st1) ∧
+      h1.heap = st1.heap.set o sv :=
+  ToGoHistProofs.refill_writes_current_values w fuel h h1 o id tn kvs hr
+
+/-- the known finding, on the code as it is: `(def r (n val:(l i:5))) (togo r) (hset r val: (l j:3)) (togo r)` -/
+def wEx : World :=
+  ⟨[⟨"N", "n", [⟨"Val", "val", false, .struct "L"⟩]⟩,
+    ⟨"L", "l", [⟨"I", "i", false, .int .i64⟩, ⟨"J", "j", false, .int .i64⟩]⟩], []⟩
+
+def storeEx : Store :=
+  [⟨1, "n", [(.sym [118, 97, 108], .hash 2 "" [])]⟩, ⟨2, "l", [(.sym [105], .int 5)]⟩, ⟨3, "l", [(.sym [106], .int 3)]⟩]
+
+def histEx : List Step := [.togo 1, .hset 1 (.sym [118, 97, 108]) (.hash 3 "" [])]
+
+/-- `Val.I` of the struct a `(togo r)` answer shows -/
+def obsValI : Ans → Option Int
+  | .go heap o => match heap[o]? with
+    | some sv => match getPath sv [0, 0] with
+      | some (.int _ v) => some v
+      | _ => none
+    | none => none
+  | _ => none
+
+set_option maxRecDepth 100000 in
+theorem togo_reflects_current_record_counterexample : ¬ TogoReflectsCurrentRecord wEx 64 := by
+  intro hall
+  have h := hall (run wEx 64 (pristine storeEx) histEx).2 (.togo 1) rfl
+  have h5 : obsValI (step wEx 64 (run wEx 64 (pristine storeEx) histEx).2 (.togo 1)).1 = some 5 := by
+    decide +kernel
+  have h0 : obsValI (step wEx 64 (pristine (run wEx 64 (pristine storeEx) histEx).2.store) (.togo 1)).1 = some 0 := by
+    decide +kernel
+  rw [h, h0] at h5
+  exact absurd h5 (by decide)
+
+set_option maxRecDepth 100000 in
+/-- non-vacuity of the history theorems: a history in which the argument conversion does see the update -/
+example : (run wEx 64 (pristine storeEx) (histEx ++ [.echo 1, .read 1])).1.length = 4 := by
+  decide +kernel
+
+/-! ### before fix C10-06: an embedded pointer made the record type unusable -/
+
+/-- `type VPE struct { *VLeaf; Z int64 }` -/
+def wPE : World :=
+  ⟨[⟨"VPE", "vpe", [⟨"VLeaf", "", true, .ptr "VLeaf"⟩, ⟨"Z", "z", false, .int .i64⟩]⟩,
+    ⟨"VLeaf", "vleaf", [⟨"I", "i", false, .int .i64⟩]⟩], []⟩
+
+set_option maxRecDepth 20000 in
+/-- C10-06: `(vpe z:4)` could not even be built before the fix (`fillJsonMap` → `NumField` of a
+pointer type), although the spec gives it a value — and the repaired walk (`toGoTop`) converts it,
+the embedded pointer being a field like any other. -/
+theorem embedded_pointer_counterexample :
+    LegacyToGo.constructibleLegacy wPE "vpe" = false ∧
+    (denTop wPE 64 none (.hash 1 "vpe" [(.sym [122], .int 4)])).isSome = true ∧
+    (match toGoTop wPE 64 none (.hash 1 "vpe" [(.sym [122], .int 4)]) with
+     | .ok (o, st) => (st.heap[o]?.bind (fun sv => getPath sv [1])).isSome
+     | .error _ => false) = true := by
+  decide +kernel
 
 end ZygoVerif.C10
